@@ -58,7 +58,10 @@ class ParseUnit(Unit):
     def twin_of(self, ctx, prog, fn):
         return 'twin_from_str_ascii'
     def fallback_harnesses(self, ctx, prog, fns):
-        return [] if 'overlap' in prog.tags else [('twin_from_str_ascii', 'from_str')]
+        if 'overlap' in prog.tags:
+            return []
+        non_ascii = any(ord(ch) > 127 for v in prog.variants for sp in oracle.spellings(prog, v) for ch in sp)
+        return [('twin_from_str', 'from_str')] if non_ascii else [('twin_from_str_ascii', 'from_str')]
     def run(self, ctx):
         self._first = None
         self.kani_always = (ctx.pid == 'C12')
